@@ -109,6 +109,9 @@ func (e *Engine) intrinsic(fn *ssa.Function, args []Value) (Value, bool) {
 	if r, ok := e.jsonStreamIntrinsic(fn, name, args); ok {
 		return r, true
 	}
+	if r, ok := e.yamlIntrinsic(fn, name, args); ok {
+		return r, true
+	}
 	switch name {
 	case "encoding/json.Unmarshal":
 		if doc, ok := args[0].(*JSONVal); ok {
